@@ -159,7 +159,16 @@ fn execute(world: &World<'_>, case: &Case, chooser: &mut dyn Chooser, info: &mut
     for (r, ops) in case.readers.iter().enumerate() {
         jobs.push(reader_job(&inst, r + 1, ops.clone(), store.clone(), out.clone()));
     }
-    let run = sched::run_opts(jobs, chooser, &mut |_| Ok(()), &Opts { stutter_labels: Some(STUTTER_LABELS) });
+    let mut watch = Watch::new(&inst.history);
+    let run = sched::run_opts(
+        jobs,
+        chooser,
+        &mut |t| {
+            watch.on_step(t);
+            Ok(())
+        },
+        &Opts { stutter_labels: Some(STUTTER_LABELS), ..Default::default() },
+    );
     if let Some((tid, msg)) = run.panics.first() {
         return Verdict::fail("C16/thread-panic", format!("thread {} panicked: {}", tid, msg));
     }
@@ -170,8 +179,8 @@ fn execute(world: &World<'_>, case: &Case, chooser: &mut dyn Chooser, info: &mut
         return Verdict::Dropped("schedule_step_bound".into());
     }
     let trace = &run.trace;
-    let ups = updater_positions(trace, 0);
-    if ups.len() != case.sets.len() || ups.iter().any(|u| !u.ok || u.install.is_none() || u.mark_done.is_none()) {
+    let mut ups = updater_positions(trace, 0);
+    if ups.len() != case.sets.len() || !watch.apply(&mut ups) || ups.iter().any(|u| !u.ok || u.install.is_none() || u.mark_done.is_none()) {
         return Verdict::Dropped("updater_trace_incomplete".into());
     }
     let installs: Vec<usize> = ups.iter().map(|u| u.install.unwrap()).collect();
@@ -305,8 +314,8 @@ fn dfs_programs(tier: Tier) -> Vec<Case> {
         c(&[1], &[1, 3], &[&[cond(0, false, true), cond(0, true, false)]]),
         c(&[1, 3], &[1], &[&[COp::Cond { pick: 2, etag: true, date: false, csv: true, pick2: Some(0) }, cond(2, true, true)]]),
     ];
+    v.push(c(&[1], &[3, 7], &[&[COp::Get { csv: false }, cond(2, true, true)], &[cond(0, false, true)]]));
     if tier == Tier::Thorough {
-        v.push(c(&[1], &[3, 7], &[&[COp::Get { csv: false }, cond(2, true, true)], &[cond(0, false, true)]]));
         v.push(c(&[1], &[3, 3, 1], &[&[cond(0, true, true), COp::Get { csv: true }, cond(2, false, true)]]));
     }
     v
@@ -364,5 +373,5 @@ pub fn run(ctx: &Ctx, rep: &mut Report, replay: Option<&serde_json::Value>) {
     if rep.violated() {
         return;
     }
-    run_prop(ctx, rep, "sched", ctx.tier.pick(2_500, 60_000), case_strategy(), |c, i| prop_sched(&world, c, i));
+    run_prop(ctx, rep, "sched", ctx.tier.pick(10_000, 150_000), case_strategy(), |c, i| prop_sched(&world, c, i));
 }
